@@ -132,6 +132,42 @@ pub fn c_simstate(sys: &System) -> String {
     s
 }
 
+/// plain facts for the monitors: clock, live queue size and earliest live time; counters
+pub fn facts(sys: &System) -> String {
+    let mut out = String::new();
+    let live = sys.sim().dump_events();
+    writeln!(
+        out,
+        "Q {} {} {}",
+        sys.time().to_bits(),
+        live.len(),
+        live.first().map(|e| e.time.to_bits().to_string()).unwrap_or_else(|| "-".to_string())
+    )
+    .unwrap();
+    let mut nodes = sys.nodes();
+    nodes.sort();
+    let mut cnt = vec![];
+    for n in &nodes {
+        let node = sys.get_node(n).unwrap();
+        let mut procs = node.process_names();
+        procs.sort();
+        for p in &procs {
+            cnt.push(format!(
+                "{}:{}:{}:{}:{}",
+                num(p),
+                node.sent_message_count(p),
+                node.received_message_count(p),
+                node.local_outbox(p).len(),
+                node.event_log(p).len()
+            ));
+        }
+    }
+    writeln!(out, "CNT {}", cnt.join(" ")).unwrap();
+    let net = sys.network();
+    writeln!(out, "NC {} {}", net.network_message_count(), net.traffic()).unwrap();
+    out
+}
+
 pub struct Progs {
     pub defs: HashMap<u64, (u64, bool, usize)>,
     pub rows: HashMap<u64, Vec<Vec<Act>>>,
@@ -283,6 +319,7 @@ pub fn run(sc: &Scenario) -> String {
                         } else {
                             writeln!(out, "STATE {}", fnv(&st)).unwrap();
                         }
+                        out.push_str(&facts(s));
                     }
                 }
             }
